@@ -4,12 +4,14 @@ import (
 	"fmt"
 	"io"
 	"net"
+	"os"
 	"runtime"
 	"strings"
 	"sync"
 	"time"
 
 	"github.com/simonvetter/modbus"
+	"verifharness/internal/sconn"
 )
 
 func init() {
@@ -18,6 +20,47 @@ func init() {
 	executors["slots"] = runSlots
 	executors["idle"] = runIdle
 	executors["burst"] = runBurst
+	executors["blockedwrite"] = runBlockedWrite
+}
+
+// runBlockedWrite: the real per-connection path (VerifServeConn) on a scripted
+// connection whose Write blocks until the write deadline - a client that has
+// stopped reading, send path full - and which stays idle after n requests.
+// The session must end (and the slot be released) about one timeout per
+// pending response plus one idle timeout later.   in: nreq timeout_ms
+func runBlockedWrite(in []string) (out string) {
+	defer func() {
+		if r := recover(); r != nil {
+			out = "panic"
+		}
+	}()
+	nreq, tmo := atoi(in[0]), time.Duration(atoi(in[1]))*time.Millisecond
+	srv, err := modbus.NewServer(&modbus.ServerConfiguration{URL: "tcp://127.0.0.1:0", Timeout: tmo, Logger: quiet}, &countHandler{})
+	if err != nil {
+		return "harness-error:" + err.Error()
+	}
+	c := sconn.New(false)
+	c.BlockWrites = true
+	for i := 0; i < nreq; i++ {
+		c.Feed(probeReq)
+	}
+	done := make(chan struct{})
+	go func() {
+		defer close(done)
+		defer func() { recover() }()
+		srv.VerifServeConn(c)
+	}()
+	limit := time.Duration(nreq+1)*tmo + 800*time.Millisecond
+	select {
+	case <-done:
+		if !c.IsClosed() {
+			return "ended-not-closed"
+		}
+		return "released"
+	case <-time.After(limit):
+		c.Close()
+		return "held"
+	}
 }
 
 // runBurst: k connections arrive at (nearly) the same instant at a server with
@@ -185,6 +228,9 @@ func probe(c net.Conn) string {
 	}
 	buf := make([]byte, 11)
 	if _, err := io.ReadFull(c, buf); err != nil {
+		if os.IsTimeout(err) {
+			return "noresp" // neither answered nor closed: the connection is left dangling
+		}
 		return "closed"
 	}
 	return "resp"
@@ -575,6 +621,7 @@ func scnBurst(o *Out, r *Rng, thorough bool) {
 }
 
 func scnIdle(o *Out, r *Rng, thorough bool) {
+	o.RunMany("blockedwrite", []string{"1 150", "2 120", "3 100"})
 	o.Run("idle", "2 200")
 	o.Run("idle", "3 350")
 	if thorough {
